@@ -9,6 +9,7 @@ from ..core import (Ctx, Violation, HarnessError, rng_for, np_rng, canon, sha_ar
 from ..snapshot import snap, diff as snapdiff, arrays_of
 
 PROPS = ("C03", "C09")
+ISOLATE = True      # process() may keep process-global state: every run starts in a forked child
 
 _hv = None
 
@@ -94,6 +95,10 @@ def generate(seed, prop):
     if rng.random() < 0.25:                                 # all the same rate
         for r in recs:
             r["rate"] = recs[0]["rate"]
+    if rng.random() < 0.2:                                  # nominally equal time steps that differ by rounding
+        for r in recs[1:]:
+            if r["rate"] == recs[0]["rate"] and rng.random() < 0.6:
+                r["dt_ulps"] = rng.choice([1, 2])
     probe_nyq = rng.random() < 0.12
     n_set = rng.randint(1, 3)
     sets = [draw_settings(rng, probe_nyq and i == 0) for i in range(n_set)]
@@ -155,6 +160,8 @@ def draw_op(rng, name, n_rec, n_set, own):
 def make_record(H, spec):
     g = np_rng(spec["k"])
     n, dt = spec["n"], 1.0 / spec["rate"]
+    for _ in range(spec.get("dt_ulps", 0)):
+        dt = float(np.nextafter(dt, 1.0))          # the same nominal time step, a few ulps away: a different time step
     t = np.arange(n) * dt
     comps = []
     for c in range(3):
